@@ -375,7 +375,8 @@ type job struct {
 func explore(r *fw.Run, lg *tlogx.Log, n, h int, l *fw.Local, dev2 bool, pairsUpTo int) {
 	count := int(tlog.StoredHashCount(int64(n)))
 	var sets [][]int64
-	for p := 0; p < count; p++ {
+	bulkOnly := pairsUpTo < 0 // large plans: only the reads of many positions at once
+	for p := 0; p < count && !bulkOnly; p++ {
 		sets = append(sets, []int64{int64(p)})
 	}
 	if n <= pairsUpTo {
@@ -394,7 +395,7 @@ func explore(r *fw.Run, lg *tlogx.Log, n, h int, l *fw.Local, dev2 bool, pairsUp
 			return lg.ReadHashes(ix)
 		}))
 	}
-	for m := 1; m <= n; m++ {
+	for m := 1; m <= n && !bulkOnly; m++ {
 		capture(func(hr tlog.HashReader) { tlog.TreeHash(int64(m), hr) })
 		capture(func(hr tlog.HashReader) { tlog.ProveTree(int64(n), int64(m), hr) })
 		capture(func(hr tlog.HashReader) { tlog.ProveRecord(int64(n), int64(m-1), hr) })
@@ -408,6 +409,17 @@ func explore(r *fw.Run, lg *tlogx.Log, n, h int, l *fw.Local, dev2 bool, pairsUp
 			dup = append(dup, int64(p), int64(p))
 		}
 		sets = append(sets, all, rev, dup)
+		if bulkOnly {
+			// every record hash (what a mirror reads), and every other one
+			var recs, odd []int64
+			for i := 0; i < n; i++ {
+				recs = append(recs, tlog.StoredHashIndex(0, int64(i)))
+				if i%2 == 1 {
+					odd = append(odd, tlog.StoredHashIndex(0, int64(i)))
+				}
+			}
+			sets = [][]int64{all, rev, recs, odd}
+		}
 		for _, k := range []int{9, 17, 65} {
 			if k < count {
 				sets = append(sets, all[:k], rev[:k])
@@ -749,11 +761,39 @@ func Run(r *fw.Run) {
 	for _, n := range h8 {
 		jobs = append(jobs, job{n, 8})
 	}
+	// large fetch plans: reads of many positions at once over trees whose plan has 64, 128, 256, 512 tiles
+	// and every count near them (height 1: about 2n tiles), each fetched tile corrupted in turn
+	bulk := map[job]bool{}
+	for _, n := range []int{127, 128, 129, 131, 255, 259} {
+		bulk[job{n, 1}] = true
+	}
+	for n := 60; n <= 80; n++ {
+		bulk[job{n, 1}] = true
+	}
+	bulk[job{259, 2}] = true
+	bulk[job{515, 3}] = true
+	if r.Thorough() {
+		bulk[job{515, 1}] = true
+		bulk[job{515, 2}] = true
+	}
+	for j := range bulk {
+		if j.n > nmax || j.h > heights[len(heights)-1] {
+			jobs = append(jobs, j)
+		} else {
+			delete(bulk, j)
+		}
+	}
+	r.Bounds["bulk_reads"] = fmt.Sprintf("%d further (size, height) pairs with sizes 60..80, 127..131, 255, 259, 515: all stored positions (both orders), all record hashes, every other record hash, one fault at every fetched tile", len(bulk))
 	sort.SliceStable(jobs, func(i, j int) bool { return jobs[i].n*jobs[i].h > jobs[j].n*jobs[j].h })
 	fw.Parallel(len(jobs), func(i int) {
 		j := jobs[i]
 		l := fw.NewLocal()
 		sub := lg
+		if bulk[j] {
+			explore(r, sub, j.n, j.h, l, false, -1)
+			r.Merge(l)
+			return
+		}
 		explore(r, sub, j.n, j.h, l, j.n <= dev2max, pairsMax)
 		if j.n <= 40 && j.h <= 4 {
 			publisher(r, lg, j.n, j.h, l)
